@@ -16,7 +16,7 @@ def gen_events(rng, limit, style):
     if style == 'equal-then-extend':
         return [{'k': 'fork', 'depth': d(), 'ext': rng.choice((0, 0, -1)), 'delay': rng.choice((0, 6, 12))}]
     if style == 'midbatch':
-        return [{'k': 'fork_at_call', 'depth': d(), 'ext': rng.choice((1, 2)), 'calls': rng.randrange(1, 7), 'pre': rng.randrange(1, 4)}]
+        return [{'k': 'fork_at_call', 'depth': d(), 'ext': rng.choice((1, 2)), 'calls': rng.randrange(1, 4), 'pre': rng.randrange(2, 5)}]
     if style == 'back-to-back':
         return [{'k': 'fork', 'depth': d(), 'ext': 1, 'wait': False, 'delay': rng.choice((0, 0.1, 1, 5.1))},
                 {'k': 'fork', 'depth': d(), 'ext': rng.choice((1, 2))}]
@@ -32,7 +32,7 @@ def gen_events(rng, limit, style):
     raise ValueError(style)
 
 
-STYLES = ('single', 'each-depth', 'equal-then-extend', 'midbatch', 'back-to-back', 'forced', 'mixed', 'mixed')
+STYLES = ('single', 'each-depth', 'equal-then-extend', 'midbatch', 'back-to-back', 'forced', 'mixed', 'midbatch')
 
 
 def gen_cases(tier, seed):
@@ -50,6 +50,8 @@ def gen_cases(tier, seed):
             'flushkind': fk, 'flushvec': flushvec_of(fk, crng),
             'policy': rng.choice(('random', 'random', 'lazy', 'eager', 'pct')), 'p': rng.choice((0.1, 0.3, 0.6)),
             'events': gen_events(rng, limit, style), 'sig_schedule': True,
+            # tx numbers beyond 255 / 65535 (multi-byte packed tx numbers in history rows) before the fork
+            'big': (rng.choice((260, 420)) if i % 3 == 2 else None) if tier == 'quick' or i % 40 else 66000,
             'fresh': (i % 4 == 0) or tier == 'thorough', 'sample': i in (0, 6), 'small_files': i % 3 == 1,
         })
     return cases
@@ -66,8 +68,9 @@ def run(tier, seed, replay=None):
         rep.absorb(run_cases(index_child, gen_cases(tier, seed), watchdog=300 if tier == 'quick' else 900), 'history')
     c = rep.counters
     floors = {'index_comparisons': 150, 'reorg_ranges': 80, 'history_backups': 100, 'reorg_depth_1': 5, 'reorg_depth_2': 5,
-              'reorg_depth_3': 5, 'reorg_depth_5': 2, 'ev_fork_midbatch': 5, 'forced_reorgs': 10, 'fork_equal_or_shorter': 5,
-              'reorg_range_doubling_branch': 2, 'fresh_index_differentials': 20, 'feat_remined_tx': 10}
+              'reorg_depth_3': 5, 'reorg_depth_5': 2, 'ev_fork_midbatch': 8, 'forced_reorgs': 10, 'fork_equal_or_shorter': 5,
+              'reorg_range_doubling_branch': 2, 'fresh_index_differentials': 20, 'feat_remined_tx': 10,
+              'histories_with_txnum_above_255': 20}
     if not replay:
         for name, minimum in floors.items():
             rep.floor(name, c[name], minimum)
